@@ -69,6 +69,15 @@ def self_check(prog):
         if t.kind == "name":
             tv = start_at.get(off)
             if tv is None or tv[0] not in Name or tv[1] != t.text:
+                # C++ 'Klass::name': Pygments yields one Name.Function token in some contexts and Klass, ::, name in others;
+                # the lexer decides what the name token is, the ground truth follows it
+                tr = next((x for x in prog.truth if x.qual_prefix and x.name == t.text and x.start == (t.line, t.col)), None)
+                tv2 = start_at.get(off + len(tr.qual_prefix)) if tr else None
+                if tr and tv2 and tv2[0] in Name and tv2[1] == t.text[len(tr.qual_prefix):]:
+                    tr.name = tv2[1]
+                    tr.start = (t.line, t.col + len(tr.qual_prefix))
+                    tr.qual_prefix = ""
+                    continue
                 return "identifier_not_lexed_as_name"
         elif t.kind == "doc":
             tv = start_at.get(off)
